@@ -22,6 +22,24 @@
 //! is a thread calling `acknowledge(n)` and `x` a thread calling `disallow_write()`.
 //! The polls are sequential on the writer thread and unconditional (the second poll does not
 //! wait for a wake; a spurious re-poll is always legal for a future).
+//!
+//! Two writers: [`MuxStream::poll_write_push`] and [`MuxStream::poll_obtain_write_permission`]
+//! take `&self` and `MuxStream` is `Sync`, so safe code can poll the write side of one stream
+//! from two threads at once (`AsyncWrite::poll_write` cannot: it needs `Pin<&mut Self>`).
+//! A scenario named `c<initial credit>-w<writers>[-a<n>|-x]*` shares one stream between
+//! `<writers>` threads, each of which calls `poll_write_push` once with its own counting waker,
+//! racing with each other and with the actors. Its outcome has one more field:
+//!
+//! ```text
+//! OUTCOME <scenario> res=<P|S|N>,..;credit=<n>;wakes=<n>,..;after=<n>,..;closed=<0|1>;frames=<n>
+//! SCHEDULE <scenario> <outcome> <event>,<event>,..
+//! ```
+//!
+//! `res` / `wakes` are per writer, `after` is per writer the number of wake-ups delivered to
+//! *any* writer's waker after that writer's poll began (the stream has a single waker slot, so
+//! that is what the stream can promise when two tasks wait on it), and `SCHEDULE` is the order
+//! of operation starts and returns (`w<i>+`, `w<i>=<res>`, `<actor>#<j>+`, `<actor>#<j>.`) in
+//! the first execution that reached the outcome.
 //
 // SPDX-License-Identifier: Apache-2.0 OR GPL-3.0-or-later
 
@@ -45,12 +63,29 @@ use tokio::sync::mpsc;
 /// Outcome sets per scenario; lives outside of `loom`'s model on purpose.
 static OUTCOMES: StdMutex<BTreeMap<String, BTreeSet<String>>> = StdMutex::new(BTreeMap::new());
 
+/// Per scenario and outcome of a two-writer scenario: the events of the first execution reaching it.
+static SCHEDULES: StdMutex<BTreeMap<String, BTreeMap<String, String>>> =
+    StdMutex::new(BTreeMap::new());
+
 /// A waker that only counts how often it was woken (not visible to `loom`).
 struct CountWaker(AtomicUsize);
 
 impl Wake for CountWaker {
     fn wake(self: std::sync::Arc<Self>) {
         self.0.fetch_add(1, StdOrdering::SeqCst);
+    }
+}
+
+/// A counting waker of a two-writer scenario: its own count and the count over all writers.
+struct SharedCountWaker {
+    own: AtomicUsize,
+    total: std::sync::Arc<AtomicUsize>,
+}
+
+impl Wake for SharedCountWaker {
+    fn wake(self: std::sync::Arc<Self>) {
+        self.own.fetch_add(1, StdOrdering::SeqCst);
+        self.total.fetch_add(1, StdOrdering::SeqCst);
     }
 }
 
@@ -63,14 +98,22 @@ enum Actor {
 #[derive(Clone, Debug)]
 struct Scenario {
     credit: u32,
+    /// `p<n>`: sequential polls of the one writer
     polls: usize,
+    /// `w<n>`: writer threads sharing the stream, one poll each (0 in a `p<n>` scenario)
+    writers: usize,
     actors: Vec<Actor>,
 }
 
 fn parse_scenario(name: &str) -> Option<Scenario> {
     let mut it = name.split('-');
     let credit = it.next()?.strip_prefix('c')?.parse().ok()?;
-    let polls = it.next()?.strip_prefix('p')?.parse().ok()?;
+    let second = it.next()?;
+    let (polls, writers) = if let Some(w) = second.strip_prefix('w') {
+        (1, w.parse().ok().filter(|w| *w >= 2)?)
+    } else {
+        (second.strip_prefix('p')?.parse().ok()?, 0)
+    };
     let mut actors = Vec::new();
     for tok in it {
         if tok == "x" {
@@ -82,6 +125,7 @@ fn parse_scenario(name: &str) -> Option<Scenario> {
     Some(Scenario {
         credit,
         polls,
+        writers,
         actors,
     })
 }
@@ -173,30 +217,177 @@ fn run_once(sc: &Scenario) -> String {
     )
 }
 
+/// One execution of a two-writer scenario inside `loom`'s model: the stream is shared by
+/// reference (`Arc<MuxStream>`, safe code only) between `sc.writers` threads that each call
+/// `poll_write_push` once. Returns the canonical outcome and the order of events.
+fn run_shared_once(sc: &Scenario) -> (String, String) {
+    let (_rx_frame_tx, rx_frame_rx) = mpsc::channel(1);
+    let (tx_msg_tx, mut tx_msg_rx) = mpsc::unbounded_channel();
+    let (dropped_flows_tx, _dropped_flows_rx) = mpsc::unbounded_channel();
+    let finish_sent = Arc::new(AtomicBool::new(false));
+    let psh_send_remaining = Arc::new(AtomicU32::new(sc.credit));
+    let writer_waker = Arc::new(AtomicWaker::new());
+    // `std`'s `Arc` on purpose: sharing the stream is not part of the code under test
+    let stream = std::sync::Arc::new(MuxStream {
+        rx_frame_rx,
+        flow_id: 1,
+        dest_host: Bytes::new(),
+        dest_port: 8080,
+        finish_sent: finish_sent.clone(),
+        psh_send_remaining: psh_send_remaining.clone(),
+        psh_recvd_since: 0,
+        writer_waker: writer_waker.clone(),
+        buf: Bytes::new(),
+        tx_msg_tx,
+        dropped_flows_tx,
+        rwnd_threshold: 4,
+    });
+    let slot = Arc::new(EstablishedStreamData {
+        sender: None,
+        finish_sent: finish_sent.clone(),
+        psh_send_remaining: psh_send_remaining.clone(),
+        writer_waker,
+    });
+    let events = std::sync::Arc::new(StdMutex::new(Vec::<String>::new()));
+    let total = std::sync::Arc::new(AtomicUsize::new(0));
+    let actor_handles: Vec<_> = sc
+        .actors
+        .iter()
+        .enumerate()
+        .map(|(j, actor)| {
+            let slot = slot.clone();
+            let actor = *actor;
+            let events = events.clone();
+            loom::thread::spawn(move || {
+                let label = match actor {
+                    Actor::Ack(n) => format!("a{n}#{j}"),
+                    Actor::Close => format!("x#{j}"),
+                };
+                events.lock().expect("events").push(format!("{label}+"));
+                match actor {
+                    Actor::Ack(n) => slot.acknowledge(n),
+                    Actor::Close => {
+                        slot.disallow_write();
+                    }
+                }
+                events.lock().expect("events").push(format!("{label}."));
+            })
+        })
+        .collect();
+    let counters: Vec<std::sync::Arc<SharedCountWaker>> = (0..sc.writers)
+        .map(|_| {
+            std::sync::Arc::new(SharedCountWaker {
+                own: AtomicUsize::new(0),
+                total: total.clone(),
+            })
+        })
+        .collect();
+    // One poll of writer `i`: (result, wake-ups delivered to any writer before the poll began)
+    let poll_once = {
+        let events = events.clone();
+        let total = total.clone();
+        move |i: usize,
+              stream: &MuxStream,
+              counter: std::sync::Arc<SharedCountWaker>|
+              -> (&'static str, usize) {
+            let before = total.load(StdOrdering::SeqCst);
+            events.lock().expect("events").push(format!("w{i}+"));
+            let waker = Waker::from(counter);
+            let cx = Context::from_waker(&waker);
+            let res = match stream.poll_write_push(&cx, b"x") {
+                Poll::Ready(Some(())) => "S",
+                Poll::Ready(None) => "N",
+                Poll::Pending => "P",
+            };
+            events.lock().expect("events").push(format!("w{i}={res}"));
+            (res, before)
+        }
+    };
+    let writer_handles: Vec<_> = (1..sc.writers)
+        .map(|i| {
+            let stream = stream.clone();
+            let counter = counters[i].clone();
+            let poll_once = poll_once.clone();
+            loom::thread::spawn(move || poll_once(i, &stream, counter))
+        })
+        .collect();
+    // Writer 0 runs on this thread
+    let mut polls = Vec::new();
+    polls.push(poll_once(0, &stream, counters[0].clone()));
+    for handle in writer_handles {
+        polls.push(handle.join().expect("writer thread panicked"));
+    }
+    for handle in actor_handles {
+        handle.join().expect("actor thread panicked");
+    }
+    let credit = psh_send_remaining.load(Ordering::SeqCst);
+    let closed = finish_sent.load(Ordering::SeqCst);
+    let mut frames = 0;
+    while tx_msg_rx.try_recv().is_ok() {
+        frames += 1;
+    }
+    let total = total.load(StdOrdering::SeqCst);
+    let res: Vec<&str> = polls.iter().map(|p| p.0).collect();
+    let outcome = format!(
+        "res={};credit={credit};wakes={};after={};closed={};frames={frames}",
+        res.join(","),
+        join_nums(counters.iter().map(|c| c.own.load(StdOrdering::SeqCst))),
+        join_nums(polls.iter().map(|p| total - p.1)),
+        u8::from(closed),
+    );
+    let events = events.lock().expect("events").join(",");
+    (outcome, events)
+}
+
 fn run_scenario(name: &str) {
     let sc = parse_scenario(name).expect("scenario name");
     let iterations = std::sync::Arc::new(AtomicUsize::new(0));
     let iterations2 = iterations.clone();
     let name2 = name.to_string();
     // `Builder::new` reads `LOOM_MAX_PREEMPTIONS` & co. from the environment
-    loom::model::Builder::new().check(move || {
-        let outcome = run_once(&sc);
-        iterations2.fetch_add(1, StdOrdering::SeqCst);
-        OUTCOMES
-            .lock()
-            .expect("outcome set")
-            .entry(name2.clone())
-            .or_default()
-            .insert(outcome);
-    });
+    // (a panic of the model, e.g. its branch limit, is passed on after the outcomes seen so far
+    // have been printed)
+    let builder = loom::model::Builder::new();
+    let checked = std::panic::catch_unwind(std::panic::AssertUnwindSafe(|| {
+        builder.check(move || {
+            let outcome = if sc.writers == 0 {
+                run_once(&sc)
+            } else {
+                let (outcome, events) = run_shared_once(&sc);
+                SCHEDULES
+                    .lock()
+                    .expect("schedules")
+                    .entry(name2.clone())
+                    .or_default()
+                    .entry(outcome.clone())
+                    .or_insert(events);
+                outcome
+            };
+            iterations2.fetch_add(1, StdOrdering::SeqCst);
+            OUTCOMES
+                .lock()
+                .expect("outcome set")
+                .entry(name2.clone())
+                .or_default()
+                .insert(outcome);
+        })
+    }));
+    print_outcomes(name, iterations.load(StdOrdering::SeqCst));
+    if let Err(panic) = checked {
+        std::panic::resume_unwind(panic);
+    }
+}
+
+fn print_outcomes(name: &str, iterations: usize) {
     let all = OUTCOMES.lock().expect("outcome set");
     for outcome in all.get(name).into_iter().flatten() {
         println!("OUTCOME {name} {outcome}");
     }
-    println!(
-        "EXPLORED {name} {}",
-        iterations.load(StdOrdering::SeqCst)
-    );
+    let schedules = SCHEDULES.lock().expect("schedules");
+    for (outcome, events) in schedules.get(name).into_iter().flatten() {
+        println!("SCHEDULE {name} {outcome} {events}");
+    }
+    println!("EXPLORED {name} {iterations}");
 }
 
 macro_rules! scenarios {
@@ -234,6 +425,27 @@ scenarios! {
     c1_p2_a1_x => "c1-p2-a1-x",
     c1_p2_a1_a1 => "c1-p2-a1-a1",
     c1_p2_a1_a1_x => "c1-p2-a1-a1-x",
+}
+
+// Two writer threads on one stream: {credit 0, 1} x {no actor, ack, close, ack+ack, ack(2),
+// ack+close, ack+ack+close}
+scenarios! {
+    c0_w2 => "c0-w2",
+    c0_w2_a1 => "c0-w2-a1",
+    c0_w2_x => "c0-w2-x",
+    c0_w2_a2 => "c0-w2-a2",
+    c0_w2_a1_a1 => "c0-w2-a1-a1",
+    c0_w2_a1_x => "c0-w2-a1-x",
+    c0_w2_a2_x => "c0-w2-a2-x",
+    c0_w2_a1_a1_x => "c0-w2-a1-a1-x",
+    c1_w2 => "c1-w2",
+    c1_w2_a1 => "c1-w2-a1",
+    c1_w2_x => "c1-w2-x",
+    c1_w2_a2 => "c1-w2-a2",
+    c1_w2_a1_a1 => "c1-w2-a1-a1",
+    c1_w2_a1_x => "c1-w2-a1-x",
+    c1_w2_a2_x => "c1-w2-a2-x",
+    c1_w2_a1_a1_x => "c1-w2-a1-a1-x",
 }
 
 /// Scenarios named in `PENGUIN_VERIF_SCENARIOS` (space or comma separated); used for replays.
